@@ -924,7 +924,7 @@ fn hold_exhaustive() -> Vec<Vec<c01::Op>> {
 }
 
 pub fn run_all(ctx: &mut Ctx, replay: Option<&Path>) {
-    ctx.rule("three generators: (a) guard histories — a layout of 3 types over <= 3 scopes, then acquire/release/read/write/set_value/try_get_value/panicking accessors through &State, checked against a readers/writer automaton per (type, scope) cell; non-trivial = >= 2 guards live on one cell with >= 1 refused request, or the same type held in two scopes; (b) multi-borrow — a generated tuple instantiation of try_get_multiple_mut (all 117 tuples of arity 2-4 over 3 types; structured tuples of arity 5-8 over 8 types) against a layout of the 8 types over 1-3 scopes; non-trivial = duplicate / missing / arity >= 5 / shadowed instance; (b') the same over tuples that contain zero-sized marker state types (distinct types are distinct states although their instances have no distinguishable address), exhaustive over the layouts; (c) holding — registry histories with nested State::holding (depth <= 3) with bodies that are registry sub-histories and injected failures; non-trivial = failure at nesting depth >= 1, or a failing holding of a type living in a parent scope; distinct by case");
+    ctx.rule("three generators: (a) guard histories — a layout of 3 types over <= 3 scopes, then acquire/release/read/write/set_value/try_get_value/panicking accessors through &State, checked against a readers/writer automaton per (type, scope) cell; non-trivial = >= 2 guards live on one cell with >= 1 refused request, or the same type held in two scopes; (b) multi-borrow — a generated tuple instantiation of try_get_multiple_mut (all 117 tuples of arity 2-4 over 3 types; structured tuples of arity 5-8 over 8 types) against a layout of the 8 types over 1-3 scopes; non-trivial = duplicate / missing / arity >= 5 / shadowed instance; (b') the same over tuples that contain zero-sized marker state types (distinct types are distinct states although their instances have no distinguishable address), exhaustive over the layouts; (b'') two different state types with the same type name: (A, B) granted, (A, A) refused - through the registry method and through the public MultiStateTuple::try_get_mut it is built on - in both orders; (c) holding — registry histories with nested State::holding (depth <= 3) with bodies that are registry sub-histories and injected failures; non-trivial = failure at nesting depth >= 1, or a failing holding of a type living in a parent scope; distinct by case");
     ctx.assume("a holding body keeps the scope depth balanced; when it inserts the held type into the very cell the held instance was taken from, the put-back replaces that instance (what was written through the held instance is what later readers see)");
     ctx.assume("when a tuple both repeats a type and misses one, any error is accepted");
     let g = GuardCheck;
